@@ -58,6 +58,29 @@ func (p *Prog) asAdjustment(s ast.Stmt) (adjustment, bool) {
 		}
 		return adjustment{k, p.exprName(x.X), d, x}, true
 	case *ast.AssignStmt:
+		if len(x.Lhs) == 1 && len(x.Rhs) == 1 && x.Tok == token.ASSIGN {
+			// E = E + c, E = E - c, E = c + E
+			if be, ok := ast.Unparen(x.Rhs[0]).(*ast.BinaryExpr); ok && (be.Op == token.ADD || be.Op == token.SUB) {
+				k := p.exprKey(x.Lhs[0])
+				if k != "" {
+					if t := p.typeOf(x.Lhs[0]); t != nil && isIntType(t) {
+						if p.exprKey(be.X) == k {
+							if c, ok := p.constInt64(be.Y); ok {
+								if be.Op == token.SUB {
+									c = -c
+								}
+								return adjustment{k, p.exprName(x.Lhs[0]), c, x}, true
+							}
+						}
+						if be.Op == token.ADD && p.exprKey(be.Y) == k {
+							if c, ok := p.constInt64(be.X); ok {
+								return adjustment{k, p.exprName(x.Lhs[0]), c, x}, true
+							}
+						}
+					}
+				}
+			}
+		}
 		if len(x.Lhs) != 1 || len(x.Rhs) != 1 || (x.Tok != token.ADD_ASSIGN && x.Tok != token.SUB_ASSIGN) {
 			return adjustment{}, false
 		}
@@ -472,6 +495,20 @@ func ruleScale(c *Ctx) {
 			}
 		}
 		collect(list[idx+1 : end])
+		// the post statement of the enclosing loop runs after the body
+		if end == len(list) {
+			for i := len(ev.stack) - 2; i >= 0; i-- {
+				if f, ok := ev.stack[i].(*ast.ForStmt); ok {
+					if f.Post != nil && i+1 < len(ev.stack) && ev.stack[i+1] == ast.Node(f.Body) {
+						// only when the event's block is the loop body itself
+						if bl, _ := enclosingBlock(ev.stack); len(bl) > 0 && len(f.Body.List) > 0 && bl[0] == f.Body.List[0] {
+							collect([]ast.Stmt{f.Post})
+						}
+					}
+					break
+				}
+			}
+		}
 		// zero-reset idiom: if V == 0 { E = ... } else { E += k }
 		for _, s := range list[idx+1 : end] {
 			ifs, ok := s.(*ast.IfStmt)
